@@ -381,7 +381,7 @@ def main():
     seed = int(os.environ.get("VERIF_SEED", "0") or 0)
     t0 = time.time()
     mod = importlib.import_module(f"props.{prop.lower()}")
-    evidence_path = ROOT / "evidence" / f"{prop}.json"
+    evidence_path = Path(os.environ.get("VERIF_EVIDENCE_DIR", ROOT / "evidence")) / f"{prop}.json"
     try:
         rc = run(prop, mod, args.tier, seed, args.replay, evidence_path, t0)
     except CheckError as e:
